@@ -48,13 +48,13 @@ Theorem C12_generated : forall E T n,
   Gen.Alloc.try_zeroed_box E T = Ret (zres_value E (try_zeroed_box T (alloc_ok E (mkLayout (sz T) (al T))))) /\
   Gen.Alloc.try_zeroed_slice_box E T n = Ret (zres_value E (try_zeroed_slice_box T n (slice_alloc_ok E T n))) /\
   Gen.Alloc.try_zeroed_vec E T n = Ret (zres_value E (try_zeroed_vec T n (slice_alloc_ok E T n))).
-Proof. intros E T n. exact (conj (gen_try_zeroed_box E T) (conj (gen_try_zeroed_slice_box E T n) (gen_try_zeroed_vec E T n))). Qed.
+Proof. exact gen_zeroed_all. Qed.
 
 Theorem C12_generated_unwrap : forall E T n,
   Gen.Alloc.zeroed_box E T = (r <- Gen.Alloc.try_zeroed_box E T ;; unwrap_unit r) /\
   Gen.Alloc.zeroed_slice_box E T n = (r <- Gen.Alloc.try_zeroed_slice_box E T n ;; unwrap_unit r) /\
   Gen.Alloc.zeroed_vec E T n = (r <- Gen.Alloc.try_zeroed_vec E T n ;; unwrap_unit r).
-Proof. intros E T n. exact (conj (gen_zeroed_box E T) (conj (gen_zeroed_slice_box E T n) (gen_zeroed_vec E T n))). Qed.
+Proof. exact gen_zeroed_unwrap_all. Qed.
 
 Example C12_generated_nonvacuous :
   let failing := mkEnv (fun _ => false) (fun _ => 0%N) (fun _ _ => 0%N) in
